@@ -28,8 +28,8 @@ ASSUMPTIONS = [
 ]
 EXHAUSTIVE_NOTE = {"quick": "all kind patterns of length <= 5 over 3 kinds, top-level and nested", "thorough": "all kind patterns of length <= 7 over 3 kinds, top-level and nested"}
 
-KINDS = ["x", "y", "z"]
-QUERY_KINDS = ["x", "y", "z", "child", "nope"]
+KINDS = ["kx", "ky", "kz"]
+QUERY_KINDS = ["kx", "ky", "kz", "x", "y", "z", "child", "nope"]
 
 
 def nm(x):
@@ -138,8 +138,8 @@ def run_pattern(case, rec):
     kids = []
     for i, k in enumerate(pat):
         gk = [[f"g{i}{j}", [], {"kind": KINDS[(i + j) % 3]}] for j in range(i % 3)]
-        kids.append([f"c{i}", gk, {"kind": k}])
-    spec = [["P", kids, {"kind": "x"}], ["Q", [], {"kind": "y"}]] if nested else kids
+        kids.append([f"c{i}", gk, {"kind": "k" + k}])  # equal but distinct str objects are made by build()
+    spec = [["P", kids, {"kind": "kx"}], ["Q", [], {"kind": "ky"}]] if nested else kids
     tree, _ = build(spec, typed=True)
     rec.cls(f"len={len(pat)}")
     check_tree(tree, rec)
@@ -155,7 +155,7 @@ def run_random(case, rec):
 def enum_cases(tier):
     m = 5 if tier == "quick" else 7
     for n in range(0, m + 1):
-        for pat in itertools.product(KINDS, repeat=n):
+        for pat in itertools.product("xyz", repeat=n):
             for nested in (False, True):
                 yield {"pattern": "".join(pat), "nested": nested}
 
